@@ -97,7 +97,7 @@ def cases(tier, seed):
         for b in G.enum_bodies(n, 3, LEAVES, with_else=(n <= 3)):
             out.append(("x", b))
     nex = len(out)
-    leaves = LEAVES + [('use', 'x'), ('use', 'y'), ('decl', 'x'), ('declu', 'y', 'x'), ('declu', 'x', 'y'), ('use', 'z'), ('goto', 'return')]
+    leaves = LEAVES + [('use', 'x'), ('use', 'y'), ('decl', 'x'), ('declu', 'y', 'x'), ('declu', 'x', 'y'), ('declu', 'x', 'x'), ('declu', 'y', 'y'), ('use', 'z'), ('goto', 'return')]
     for i in range(6000 if tier == "quick" else 150000):
         out.append(("r", G.random_body(rng, 3, rng.randint(1, 30 if i % 5 == 0 else 9), leaves, 0.12, 0.08)))
     for i in range(6000 if tier == "quick" else 150000):
